@@ -77,7 +77,7 @@ def wire_mapper(m):
     if m in (None, "none"):
         return "none"
     if isinstance(m, dict) and "complex" in m:
-        return "complex"
+        return "complex-list" if m["complex"] == "list" else "complex"
     return m
 
 
@@ -451,7 +451,7 @@ def gen_fast(rng, tier, n_classes):
 
 def gen_cases(rng, tier, scale=1.0):
     q = tier == "quick"
-    n = int((90 if q else 1500) * scale)
+    n = int((450 if q else 6000) * scale)
     return gen_trusted(rng, tier, n) + gen_construct(rng, tier, int(n * 0.35)) + gen_fast(rng, tier, int(n * 0.5))
 
 
@@ -738,6 +738,8 @@ def same_doc(cls, a, b, mapped=False):
     longer name the fields, so every array is compared order-free"""
     if mapped:
         return json.dumps(_sort_lists(_sort_doc(a)), sort_keys=True) == json.dumps(_sort_lists(_sort_doc(b)), sort_keys=True)
+    if len(cls["fields"]) == 1 and not (isinstance(a, dict) and "m" in a and isinstance(b, dict) and "m" in b):
+        cls = cls["fields"][0][1]       # compact form: the document of the only field
     return json.dumps(S.canon_doc(cls, _sort_doc(a)), sort_keys=True) == json.dumps(S.canon_doc(cls, _sort_doc(b)), sort_keys=True)
 
 
